@@ -2,6 +2,7 @@ import HappyProofs.C12.PxFut
 import HappyProofs.C12.PxPromise
 import HappyProofs.C12.PxCurExact
 import HappyProofs.C12.PxLiveFull
+import HappyProofs.C12.PxJudge
 import HappyProofs.C12.LockProof
 import HappyProofs.C12.MPWitness
 import HappyProofs.C12.MPCommit
